@@ -31,9 +31,6 @@ package v2
 //@ func (dag.Transaction).*
 //@   trusted
 //@   pure
-//@ func (dag.PAL).Contains
-//@   trusted
-//@   pure
 //@ func (*Envelope).*
 //@   trusted
 //@   pure
